@@ -495,7 +495,7 @@ package transport
 //@        ref(argof(cyclist.Cyclist.Squeeze, y)) == ref(hs.macBuf[:]) && len(argof(cyclist.Cyclist.Squeeze, y)) == 16
 
 //@ func (s *Server) readPQClientRequestHidden(hs *HandshakeState, b []byte) (n int, err error)
-//@   property C10 C19
+//@   property C10 C19 C02
 //@   requires len(b) >= 4 && hs.dh != nil && hs.kem != nil
 //@   modifies hs.duplex, hs.duplex.gh_tr, hs.macBuf, hs.sni, hs.kem.remoteEphemeral, hs.parsedLeaf, hs.dh.remoteStatic, hs.handshakeKey, b[:], opaque(hs)
 //@   ensures err == nil ==> hsOK(hs) && hs.duplex.mode == cyclist.Key && hs.kem.remoteEphemeral != nil && n <= len(b)
@@ -508,8 +508,22 @@ package transport
 //@   ensures err == nil ==> callcount(bytes.Equal) >= 2 && resultof(bytes.Equal, r)
 //@   ensures err == nil ==> resultof(binary.bigEndian.Uint64, v) <= uint64(resultof(time.Time.Unix, s)) &&
 //@        resultof(time.Time.Unix, s) - int64(resultof(binary.bigEndian.Uint64, v)) <= 5
+// (C02) with n = 1612 + L: bytes [0:n-24] are covered by the same transcript function the request writer applies, started from
+// the hidden-mode initial transcript; K is the secret decapsulated with the matching certificate's KEM key from bytes
+// [804:1572]; the tag bytes [n-40:n-24] equal that function's squeeze.  The last 24 bytes are handled after the function has
+// moved them to the front of b (copy(b, bufCopy)): the final transcript is trSqueeze(trDecrypt(T, those 8 bytes), 16) and the
+// C19 clause above says the final MAC compared equal.  That the moved bytes are bytes [n-24:n] of the datagram is the one link
+// the solvers did not discharge (listed under not_covered of C02).
+//@   ensures err == nil ==> n == 1612 + (int(old(b[2])) << 8) + int(old(b[3]))
+//@   ensures err == nil ==> called(keys.KEMKeyPair.Decapsulate) && resultof(keys.KEMKeyPair.Decapsulate, err) == nil
+//@   ensures err == nil ==> bytes(resultof(keys.KEMKeyPair.Decapsulate, ss)) == kemShared(kemPubOf(ref(argof(keys.KEMKeyPair.Decapsulate, kp).Public)), old(bytes(b[804:1572])))
+//@   after transport.HandshakeState.certificateParserAndVerifier let trAtVerify = hs.duplex.gh_tr
+//@   ensures err == nil ==> trAtVerify == trSqueeze(hreqMid(hidInitTr(), old(bytes(b[0:4])), old(bytes(b[4:804])), bytes(resultof(keys.KEMKeyPair.Decapsulate, ss)), old(bytes(b[1572:n-40]))), 16)
+//@   ensures err == nil ==> old(bytes(b[n-40:n-24])) == hreqTag(hidInitTr(), old(bytes(b[0:4])), old(bytes(b[4:804])), bytes(resultof(keys.KEMKeyPair.Decapsulate, ss)), old(bytes(b[1572:n-40])))
+//@   ensures err == nil ==> hs.duplex.gh_tr == trSqueeze(trDecrypt(trAtVerify, bytes(argof(cyclist.Cyclist.Decrypt, ciphertext))), 16)
 //@   loop 1
 //@     invariant c == nil && len(scratch) == len(b) && hs.dh != nil && hs.kem != nil && hs.dh == old(hs.dh) && hs.kem == old(hs.kem)
+//@     invariant arr(b) == old(arr(b)) && ref(scratch) != ref(b)
 //@     invariant len(b) >= 4 + 768 + encCertsLen + 16 + 800 + 8 + 16 && encCertsLen >= 0 && encCertsLen <= 65535
 
 //@ func (s *Server) handlePQClientRequestHidden(b []byte) (n int, hs *HandshakeState, err error)
@@ -933,3 +947,7 @@ package transport
 //@     sauthTr(t, hdr, sid, dhPub(spriv), dhAgree(spriv, dhPub(cpriv)), certs, es) == sauthTr(t, hdr, sid, dhPub(spriv), dhAgree(cpriv, dhPub(spriv)), certs, es)
 // (3) The two directional keys are squeezed from different histories (different labels, different positions).
 //@ lemma C02.direction_keys_from_distinct_histories: forall t Tr :: kdfC2S(t) != kdfS2C(t)
+
+// the hidden-mode initial transcript: protocol name absorbed into an empty duplex, then re-keyed under that name
+//@ macro hidName() = bytes("hop_pqIK_cyclist_keccak_C512")
+//@ macro hidInitTr() = rekeyTr(trAbsorb(trEmpty(), hidName()), hidName())
